@@ -67,28 +67,20 @@ fn verif_equal_tuple_fields(ldef: &Vec<(Rc<str>, Rc<Val>)>, rdef: &Vec<(Rc<str>,
 //@ extract src/build/ir.rs :: impl ConstraintVal :: fn check
 //@   subst "}) }" => "}}) }"
 //@   subst "self.arms.iter().any(|arm| match arm {" => "verif_any(self.arms.as_slice(), |arm: &ConstraintValArm| -> (b: bool) requires decreases_to!(*self => *arm) ensures b == arm_admits(*arm, *val) { match arm {"
-//@   subst <<<
-                if let Val::Int(v) = val {
-                    min.is_none_or(|lo| *v >= lo) && max.is_none_or(|hi| *v <= hi)
-//@ ===
-                if let Val::Int(v) = val {
-                    min.is_none_or(|lo: i64| -> (b: bool) ensures b == (*v >= lo) { *v >= lo }) && max.is_none_or(|hi: i64| -> (b: bool) ensures b == (*v <= hi) { *v <= hi })
-//@   >>>
-//@   subst <<<
-                if let Val::Float(v) = val {
-                    min.is_none_or(|lo| *v >= lo) && max.is_none_or(|hi| *v <= hi)
-//@ ===
-                if let Val::Float(v) = val {
-                    min.is_none_or(|lo: f64| -> (b: bool) ensures b == f64_ge(*v, lo) { *v >= lo }) && max.is_none_or(|hi: f64| -> (b: bool) ensures b == f64_le(*v, hi) { *v <= hi })
-//@   >>>
+// the four bound closures (two per numeric type): anchors carry no comparison operator, so that a changed
+// operator in the source is a failed obligation, not a lost anchor. `b_ge`/`b_le`: `>=`/`<=` of the operand type.
+//@   subst all "min.is_none_or(|lo|" => "min.is_none_or(|lo| -> (b: bool) ensures b == (*v).b_ge(lo) {"
+//@   subst all "lo) &&" => "lo }) &&"
+//@   subst all "max.is_none_or(|hi|" => "max.is_none_or(|hi| -> (b: bool) ensures b == (*v).b_le(hi) {"
+//@   subst all "hi) }" => "hi }) }"
 //@   ret r
 //@   sig <<<
         ensures r == check_spec(*self, *val)
         decreases *self
 //@   >>>
-//@   mutant int_hi_exclusive "(b: bool) ensures b == (*v <= hi) { *v <= hi }" => "(b: bool) ensures b == (*v <= hi) { *v < hi }" expect check
-//@   mutant int_lo_exclusive "(b: bool) ensures b == (*v >= lo) { *v >= lo }" => "(b: bool) ensures b == (*v >= lo) { *v > lo }" expect check
-//@   mutant float_hi_exclusive "ensures b == f64_le(*v, hi) { *v <= hi }" => "ensures b == f64_le(*v, hi) { *v < hi }" expect check
+//@   mutant int_hi_exclusive "{ *v <= hi }) } else { false } } ConstraintValArm::Range(ConstraintBound::Float(min, max))" => "{ *v < hi }) } else { false } } ConstraintValArm::Range(ConstraintBound::Float(min, max))" expect check
+//@   mutant int_lo_exclusive "if let Val::Int(v) = val { min.is_none_or(|lo| -> (b: bool) ensures b == (*v).b_ge(lo) { *v >= lo })" => "if let Val::Int(v) = val { min.is_none_or(|lo| -> (b: bool) ensures b == (*v).b_ge(lo) { *v > lo })" expect check
+//@   mutant float_hi_exclusive "{ *v <= hi }) } else { false } } ConstraintValArm::Exact" => "{ *v < hi }) } else { false } } ConstraintValArm::Exact" expect check
 //@   mutant first_arm_only "verif_any(self.arms.as_slice()," => "verif_any(vstd::slice::slice_subrange(self.arms.as_slice(), 0, 1)," expect check
 //@   mutant int_lo_hi_swapped "ConstraintValArm::Range(ConstraintBound::Int(min, max)) =>" => "ConstraintValArm::Range(ConstraintBound::Int(max, min)) =>" expect check
 //@   mutant int_range_admits_float "} else { false } } ConstraintValArm::Range(ConstraintBound::Float(min, max))" => "} else { if let Val::Float(_) = val { true } else { false } } } ConstraintValArm::Range(ConstraintBound::Float(min, max))" expect check
